@@ -183,7 +183,7 @@ class parse_blueprint:
     (a project is stored), it and everything it contains — columns, indexes, items, their notes, inline
     references — is tied to this parser, a table's inline references are appended to the reference list, and
     the other lists stay as they were.  Four loops are verified by invariant."""
-    properties = ('C01', 'C05', 'C11')
+    properties = ('C01', 'C05')
     params = {'self': 'PyDBMLParser', 's': 'str', 'loc': 'int',
               'tok': 'PR(0:Union[TableBlueprint,ReferenceBlueprint,EnumBlueprint,TableGroupBlueprint,ProjectBlueprint,StickyNoteBlueprint])'}
 
@@ -301,3 +301,173 @@ class parse_blueprint:
 
     def ensures_project_note_tied(self, s, loc, tok, result):
         return not isinstance(tok[0], ProjectBlueprint) or owned_note(self, tok[0].note)
+
+
+# ------------------------------------------------------------------------------------------ the second phase: build
+from contracts.database import db_inv, lists_distinct      # noqa: E402
+from pyvc.speclib import fresh      # noqa: E402,F811
+
+
+def db_configured(parser, db):
+    """the database carries the parser's options (C12, C15, C16) and is a database of this call"""
+    return (fresh(db) and db.allow_properties is parser._allow_properties and db.sql_renderer is parser._sql_renderer
+            and db.dbml_renderer is parser._dbml_renderer and db_inv(db) and lists_distinct(db)
+            and fresh(db.tables) and fresh(db.refs) and fresh(db.enums) and fresh(db.table_groups)
+            and fresh(db.sticky_notes))
+
+
+def tables_ready(parser):
+    """what TableBlueprint.build needs of every table blueprint that is still to be built"""
+    return all(table_ready(parser, t) for t in parser.tables)
+
+
+def table_ready(parser, t):
+    return (t.columns is not None
+            and all(isinstance(c.type, str) and c.parser is parser for c in t.columns)
+            and all(all(a == b or x is not y for b, y in enumerate(t.columns)) for a, x in enumerate(t.columns)))
+
+
+def columns_private(parser):
+    """no ColumnBlueprint object is a column of two table blueprints"""
+    return all(all(a == b or ta.columns is None or tb.columns is None
+                   or all(all(x is not y for y in tb.columns) for x in ta.columns)
+                   for b, tb in enumerate(parser.tables)) for a, ta in enumerate(parser.tables))
+
+
+def db_collections(db):
+    return [loc_list(db.tables), loc_list(db.refs), loc_list(db.enums), loc_list(db.table_groups),
+            loc_list(db.sticky_notes), field_at(db, 'project')]
+
+
+def enums_built(parser, n):
+    return (len(parser.database.enums) == n
+            and all(parser.database.enums[j].name == parser.enums[j].name
+                    and parser.database.enums[j].schema == parser.enums[j].schema for j in range(n)))
+
+
+def tables_built(parser, n):
+    return (len(parser.database.tables) == n
+            and all(parser.database.tables[j].name == parser.tables[j].name
+                    and parser.database.tables[j].schema == parser.tables[j].schema for j in range(n)))
+
+
+def tied(parser):
+    return (all(g.parser is parser for g in parser.table_groups) and all(r.parser is parser for r in parser.refs))
+
+
+def parser_lists_distinct(p):
+    return (p.refs is not p.tables and p.refs is not p.enums and p.refs is not p.table_groups
+            and p.refs is not p.sticky_notes and p.refs is not p.ref_blueprints and p.tables is not p.enums
+            and p.tables is not p.table_groups and p.tables is not p.sticky_notes and p.tables is not p.ref_blueprints
+            and p.enums is not p.table_groups and p.enums is not p.sticky_notes and p.enums is not p.ref_blueprints
+            and p.table_groups is not p.sticky_notes and p.table_groups is not p.ref_blueprints
+            and p.sticky_notes is not p.ref_blueprints)
+
+
+@contract('pydbml.parser.parser:PyDBMLParser.build_database')
+class build_database:
+    """The second phase (C01, C05, C12, C15, C16): a new Database configured with the parser's options receives,
+    in this order, one enum per enum blueprint, one table per table blueprint, the groups, the sticky notes, the
+    project and one reference per reference blueprint; the representation invariant of the database holds at the
+    end; a rule violation surfaces as one of the library's exceptions (C06).  Five loops verified by invariant."""
+    properties = ('C01', 'C05', 'C12', 'C15', 'C16')
+    tier = 'thorough'
+    min_timeout_ms = 15000
+    explore_budget_s = 1500
+    params = {'self': 'PyDBMLParser'}
+    allowed = ('DatabaseValidationError', 'TableNotFoundError', 'ColumnNotFoundError', 'ValidationError', 'RuntimeError')
+
+    def requires_lists(self):
+        return parser_lists_distinct(self)
+
+    def requires_tables_ready(self):
+        return tables_ready(self)
+
+    def requires_tied(self):
+        return tied(self)
+
+    def modifies(self):
+        return [field_at(self, 'database'), loc_list(self.ref_blueprints),
+                loc_cls(ColumnBlueprint, 'type'), loc_cls(ColumnBlueprint, 'default'),
+                loc_cls(ReferenceBlueprint, 'schema1'), loc_cls(ReferenceBlueprint, 'table1'),
+                loc_cls(ReferenceBlueprint, 'col1')]
+
+    def requires_private_columns(self):
+        return columns_private(self)
+
+    # every loop calls Database.add, whose frame is the five collections and the project slot
+    def loop0_modifies(self):
+        return db_collections(self.database)
+
+    def loop1_modifies(self):
+        return db_collections(self.database) + [
+            loc_list(self.ref_blueprints), loc_cls(ColumnBlueprint, 'type'), loc_cls(ColumnBlueprint, 'default'),
+            loc_cls(ReferenceBlueprint, 'schema1'), loc_cls(ReferenceBlueprint, 'table1'),
+            loc_cls(ReferenceBlueprint, 'col1')]
+
+    def loop2_modifies(self):
+        return db_collections(self.database)
+
+    def loop3_modifies(self):
+        return db_collections(self.database)
+
+    def loop4_modifies(self):
+        return db_collections(self.database)
+
+    # -- enums
+    def loop0_invariant(self, i):
+        return (db_configured(self, self.database) and parser_lists_distinct(self) and tied(self)
+                and tables_ready(self) and columns_private(self)
+                and enums_built(self, i)
+                and len(self.database.tables) == 0 and len(self.database.refs) == 0
+                and len(self.database.table_groups) == 0 and len(self.database.sticky_notes) == 0
+                and self.database.project is None)
+
+    # -- tables
+    def loop1_invariant(self, i):
+        return (db_configured(self, self.database) and parser_lists_distinct(self) and tied(self)
+                and columns_private(self)
+                and all(j < i or table_ready(self, self.tables[j]) for j in range(len(self.tables)))
+                and enums_built(self, len(self.enums)) and tables_built(self, i)
+                and len(self.database.refs) == 0 and len(self.database.table_groups) == 0
+                and len(self.database.sticky_notes) == 0 and self.database.project is None)
+
+    # -- table groups
+    def loop2_invariant(self, i):
+        return (db_configured(self, self.database) and parser_lists_distinct(self) and tied(self)
+                and enums_built(self, len(self.enums)) and tables_built(self, len(self.tables))
+                and len(self.database.table_groups) == i
+                and len(self.database.refs) == 0 and len(self.database.sticky_notes) == 0
+                and self.database.project is None)
+
+    # -- sticky notes
+    def loop3_invariant(self, i):
+        return (db_configured(self, self.database) and parser_lists_distinct(self) and tied(self)
+                and enums_built(self, len(self.enums)) and tables_built(self, len(self.tables))
+                and len(self.database.table_groups) == len(self.table_groups)
+                and len(self.database.sticky_notes) == i
+                and len(self.database.refs) == 0 and self.database.project is None)
+
+    # -- references
+    def loop4_invariant(self, i):
+        return (db_configured(self, self.database) and parser_lists_distinct(self) and tied(self)
+                and enums_built(self, len(self.enums)) and tables_built(self, len(self.tables))
+                and len(self.database.table_groups) == len(self.table_groups)
+                and len(self.database.sticky_notes) == len(self.sticky_notes)
+                and (self.database.project is None) == (self.project is None)
+                and len(self.database.refs) == i)
+
+    def ensures_configured(self, result):
+        return db_configured(self, self.database)
+
+    def ensures_enums(self, result):
+        return enums_built(self, len(self.enums))
+
+    def ensures_tables(self, result):
+        return tables_built(self, len(self.tables))
+
+    def ensures_counts(self, result):
+        return (len(self.database.table_groups) == len(self.table_groups)
+                and len(self.database.sticky_notes) == len(self.sticky_notes)
+                and (self.database.project is None) == (self.project is None)
+                and len(self.database.refs) == len(self.refs))
